@@ -15,7 +15,7 @@ RULE = ("one case = one field edit (add / replace / remove / select; from a scal
         "and the column holds at least one record")
 ASSUMPTIONS = ["replacing a field with keep_dtype=True is exercised with the same element type or a new field only (casts are Arrow's)"]
 CORRESPONDENCE = "m_set_flat_field / m_set_list_field / m_fill_field_lists / m_pop_fields / m_view_fields (ExtArray.v) vs the real methods"
-LAYOUTS = [l for l in gen.LAYOUTS if l != "missing_hidden"] + ["history", "history"]
+LAYOUTS = list(gen.LAYOUTS) + ["history", "history"]
 
 
 def generate(ctx):
